@@ -33,6 +33,10 @@ SCHEMAS = {
     # column names that are also attribute names of the row's own type (dict.values, .items, .keys, .get, .copy ...)
     'dictattr': lambda: pa.schema([('i', pa.int64()), ('values', pa.list_(pa.int64())), ('items', pa.string()), ('keys', pa.float64()), ('get', pa.int64()),
                                    ('copy', pa.string())]),
+    # column names as data sets really have them: blanks, punctuation, units in parentheses, '=', a tab, non-ASCII letters - and two
+    # names that differ only by such a character
+    'oddnames': lambda: pa.schema([('unit price', pa.int64()), ('qty (kg)', pa.string()), ('a b', pa.float64()), ('a_b', pa.int64()),
+                                   ('x=y;{z}', pa.string()), ('tab\there', pa.int64()), ('\xe9t\xe9, n\xb0', pa.string())]),
 }
 
 
@@ -47,6 +51,8 @@ def build_rows(spec):
         if spec['schema'] == 'dictattr':
             row = {'i': row['i'], 'values': r.choice([[], [k], [k, None, -k], None]), 'items': row['s'], 'keys': row['f'], 'get': k % 7 if k % 5 else None,
                    'copy': 'c%d' % k}
+        if spec['schema'] == 'oddnames':
+            row = {'unit price': row['i'], 'qty (kg)': row['s'], 'a b': row['f'], 'a_b': k, 'x=y;{z}': 'z%d' % k, 'tab\there': -k, '\xe9t\xe9, n\xb0': row['s']}
         if spec['schema'] == 'nested':
             row['st'] = r.choice([{'a': k % 1000, 'b': 'b%d' % k}, {'a': None, 'b': None}, None])
             row['l'] = r.choice([[], [k], [k, None, -k], None])
@@ -86,7 +92,7 @@ class C20(Check):
     ASSUMPTIONS = ['pyarrow is trusted as parquet codec and as the independent reader']
     ANCHORS = ['rxsci/container/parquet.py', 'rxsci/data/batch.py']
     REQUIRED_TAGS = FILE_NAME_TAGS + ['loader-built-before-the-dump', 'target-exists-empty'] + ['none', 'snappy', 'gzip', 'zstd', 'rows=0', 'rows<b', 'rows=b', 'rows=kb', 'rows%b!=0', 'path', 'fileobj',
-                     'nested', 'required', 'dictattr', 'row_group', 'rows-with-mixed_order', 'rows-with-mixed_extra', 'rows-with-reversed', 'pushed-source', 'after-a-failed-dump', 'numpy-typed-batch-size', 'file-object-not-at-position-0']
+                     'nested', 'required', 'dictattr', 'oddnames', 'row_group', 'rows-with-mixed_order', 'rows-with-mixed_extra', 'rows-with-reversed', 'pushed-source', 'after-a-failed-dump', 'numpy-typed-batch-size', 'file-object-not-at-position-0']
     REQUIRED_OBSERVED = ['rows_compared_rxsci_reader', 'rows_compared_pyarrow_reader']
 
     def __init__(self):
@@ -114,7 +120,7 @@ class C20(Check):
             yield {'rows': rows, 'batch': b,
                    'load_batches': sorted({1 if rows <= 400 else 17, rng.randint(1, 2000), max(1, b)}),
                    'row_group_size': rng.choice([None, None, 1, 5, 100]),
-                   'compression': comps[k % 4], 'schema': ['flat', 'nested', 'single', 'required', 'dictattr'][(k // 4) % 5],
+                   'compression': comps[k % 4], 'schema': ['flat', 'nested', 'single', 'required', 'dictattr', 'oddnames'][(k // 4) % 6],
                    'target': 'path' if k % 5 else 'fileobj', 'rseed': rng.randrange(1 << 30),
                    'rowform': ['uniform', 'mixed_order', 'uniform', 'mixed_extra', 'reversed'][(k // 2) % 5]}
 
